@@ -64,6 +64,7 @@ func _roll64(src *rand.PCGSource, dicePoints int64, mod int) int64 {
 }
 
 func Roll(src *rand.PCGSource, dicePoints IntType, mod int) IntType {
+	verifMeterRoll()
 	if dicePoints == 0 {
 		return 0
 	}
